@@ -57,7 +57,10 @@ func genWords(r *rand.Rand, n int, real, hyphen bool) []string {
 	return ws
 }
 
-func genSplit(r *rand.Rand, engine string) c11In {
+// k is the number of the case among those of its slot: one case in four puts overflow-wrap on a
+// text that does not start its line, where no word may be cut (anywhere and break-word in turn).
+func genSplit(r *rand.Rand, engine string, k int) c11In {
+	owMid := k%4 == 1
 	t := TextIn{Family: "Ahem", Size: float64(pick(r, 8, 10, 16, 20)), LineStart: r.Intn(4) != 0}
 	real := r.Intn(3) == 0
 	if real {
@@ -69,6 +72,9 @@ func genSplit(r *rand.Rand, engine string) c11In {
 		// the go-text engine does not break at preserved line breaks (finding G1): collapsing
 		// modes only
 		t.WS = wpick(r, "normal", 6, "nowrap", 1)
+	}
+	if owMid && t.WS != "normal" && (t.WS != "pre-line" || engine == "gotext") {
+		t.WS = "normal"
 	}
 	words := genWords(r, 1+r.Intn(14), real, r.Intn(4) == 0)
 	sep := " "
@@ -86,6 +92,10 @@ func genSplit(r *rand.Rand, engine string) c11In {
 	t.Text = sb.String()
 	if (t.WS == "normal" || t.WS == "pre-line") && r.Intn(5) == 0 {
 		t.OW = pick(r, "anywhere", "break-word")
+	}
+	if owMid {
+		t.OW = []string{"break-word", "anywhere"}[(k/4)%2]
+		t.LineStart = false
 	}
 	// widths: every half font size up to the text's length for Ahem; integer pixels around the
 	// measured word boundaries cannot be known here for the real font: a dense sweep instead
@@ -227,6 +237,12 @@ func checkSplit(in *c11In) fw.Result {
 	for _, W := range in.Widths {
 		r := text.SplitFirstLine(runes, style, ctx, pr.Float(W), false, t.LineStart)
 		res.Count("split_calls", 1)
+		if wrap && t.OW != "" && !t.LineStart {
+			res.Count("split_ow_not_line_start_calls", 1)
+			if measure(runes[:nextUnitEnd(runes, 0)]) > float64(W) {
+				res.Count("split_ow_not_line_start_overlong", 1)
+			}
+		}
 		if r.ResumeAt == 0 || r.ResumeAt < -1 || r.ResumeAt > n {
 			fail(W, "resume-range", "ResumeAt must be -1 or in 1..len(text)", r)
 			continue
